@@ -76,8 +76,18 @@ class _C16(Spec):
         nh = 4000 if tier == "quick" else 60000
         lin_summary = []
         for k in range(4):
-            resp, raw = core.ask(core.ORACLE_HOOKS, ["locks linhist %d %d" % (nh // 4, rng.randrange(1 << 30))])
+            lreq = "locks linhist %d %d" % (nh // 4, rng.randrange(1 << 30))
+            pl = subprocess.run([core.ORACLE_HOOKS], input=lreq + "\n", stdout=subprocess.PIPE, stderr=subprocess.PIPE, text=True)
+            raw = pl.stdout.split("\n")[:1]
+            resp = [raw[0].split("\t")[0]]
             lin_summary.append(resp[0])
+            if pl.returncode != 0 or not resp[0]:
+                # the Go runtime stops the process when it sees a map written while it is read ("fatal error:
+                # concurrent map …"): some operation touched a set's contents without that set's lock
+                fatal = [l for l in pl.stderr.splitlines() if l.startswith("fatal error:") or l.startswith("panic:")]
+                where = [l.strip() for l in pl.stderr.splitlines() if "utils/mapset." in l][:4]
+                failing.append(("linearizability", lreq, "the process running the concurrent histories died: %s; frames: %s" % (
+                    "; ".join(fatal[:2]) or "exit code %d" % pl.returncode, " | ".join(where))))
             for item in raw[0].split("\t")[1:]:
                 if item.startswith("!PROP C16 "):
                     failing.append(("linearizability", "locks linhist", item[len("!PROP C16 "):]))
